@@ -231,7 +231,7 @@ def check_table(m, phase, fe, cfg, report):
     # negative by (third derivative) x (position error) + finite-difference rounding, about
     # 1e-7 T^2 (model); same safety factor as the position tolerance
     eig_model = 1e-7 * Ts ** 2
-    eig_floor = -TOL_SAFETY * eig_model
+    eig_floor = -EIG_SAFETY * eig_model
     lo_exist, hi_exist = ph.Tlo - slack, ph.Thi + slack
     # ---- sortedness, no two nodes a few ulp apart ---------------------------------------
     n += 2
@@ -291,7 +291,9 @@ def check_table(m, phase, fe, cfg, report):
         model = err_model(m, rTol, soft, v, emin)
         tolx = TOL_SAFETY * model
         worst["grad"] = max(worst["grad"], step / model)
-        worst["field"] = max(worst["field"], dist / (2 * model + step))
+        near_end = min(abs(Ti - ph.Tlo), abs(Ti - ph.Thi)) < 3 * slack
+        if not (near_end and dist > 2 * tolx + step):      # (those are hops, counted below)
+            worst["field"] = max(worst["field"], dist / (2 * model + step))
         if step > tolx:
             report("gradient-not-zero",
                    "tabulated point T=%.10g fields=%s is %.3g (Newton step) away from a "
@@ -492,6 +494,8 @@ def _d4(f, t, h):
 # eigenvalue at an accepted point 1.16 x 1e-7 T^2  ->  3 x 1.16 = 3.5.  Every run records its
 # own worst ratios in the evidence ("worst_error_over_model").
 TOL_SAFETY = 3.5
+# negative exact eigenvalue at an accepted point: worst observed 2.12 x 1e-7 T^2 (thorough tier)
+EIG_SAFETY = 7.0
 
 
 def err_model(m, rTol, soft, v, emin):
